@@ -10,10 +10,8 @@ mod util;
 pub mod unit;
 
 #[cfg(feature = "verif-hooks")]
-<<<<<<< HEAD
 pub mod verif;
 #[cfg(feature = "verif-hooks")]
 pub mod verif_http;
-=======
+#[cfg(feature = "verif-hooks")]
 pub mod verif_update;
->>>>>>> 6821787 (verif-hooks: BMP route-monitoring child facade (UPDATE bytes -> payloads of the emitted Update::Bulk))
